@@ -56,6 +56,10 @@ def rules : P (List Bytes) := do
 def cidP : P CID := do
   let kind ← next
   let raw ← pHex
+  if kind == "z" then
+    -- a zoned address: the third field is the zone name
+    let zone ← pHex
+    return .zip raw zone
   let bits ← pNat
   match kind with
   | "i" => pure (.ip raw)
@@ -80,7 +84,11 @@ def resetP : P ResetArgs := do
   let ignS ← rules
   let clients ← listOf clientP
   let leases ← listOf (do let a ← pHex; let m ← pHex; pure (a, m))
-  pure { anon, refuseAny, qlogOn, statsOn, ignQ, ignS, clients, leases }
+  -- optional: the tree carries fixes/c08/zoned_client_stats.patch
+  let fixZone ← (fun fs => match fs with
+    | [] => some (false, [])
+    | f :: rest => (parseBool f).map (fun b => (b, rest)) : P Bool)
+  pure { anon, refuseAny, qlogOn, statsOn, ignQ, ignS, clients, leases, fixZone }
 
 /-- `name:ip:cid`, each hex. -/
 def entryOf (s : String) : Option Entry :=
@@ -128,10 +136,20 @@ def sortStrs (l : List String) : List String := l.foldr insertStr []
 def counted (tag : String) (items : List String) : String :=
   String.intercalate "\t" ([tag, toString items.length] ++ items)
 
-def showClients (m : List (Key × Nat)) : String :=
-  counted "C" (sortStrs (m.map fun kv => showKey kv.1 ++ "=" ++ toString kv.2))
-def showDomains (m : List (Bytes × Nat)) : String :=
-  counted "D" (sortStrs (m.map fun kv => hexEncode kv.1 ++ "=" ++ toString kv.2))
+/-- Sum the counts of equal keys (the Go side dumps maps). -/
+def addKV {α : Type} [BEq α] (m : List (α × Nat)) (k : α) (n : Nat) : List (α × Nat) :=
+  match m with
+  | [] => [(k, n)]
+  | (k', n') :: rest => if k' == k then (k', n' + n) :: rest else (k', n') :: addKV rest k n
+def mergeKV {α : Type} [BEq α] (m : List (α × Nat)) : List (α × Nat) :=
+  m.foldl (fun acc kv => addKV acc kv.1 kv.2) []
+
+def showClientsAs (tag : String) (m : List (Key × Nat)) : String :=
+  counted tag (sortStrs ((mergeKV m).map fun kv => showKey kv.1 ++ "=" ++ toString kv.2))
+def showDomainsAs (tag : String) (m : List (Bytes × Nat)) : String :=
+  counted tag (sortStrs ((mergeKV m).map fun kv => hexEncode kv.1 ++ "=" ++ toString kv.2))
+def showClients := showClientsAs "C"
+def showDomains := showDomainsAs "D"
 
 def showOut : Out → String
   | .ok => "ok"
@@ -140,6 +158,14 @@ def showOut : Out → String
   | .flushed mem file => counted "M" (mem.map showEntry) ++ "\t" ++ counted "F" (file.map showEntry)
   | .found rs => counted "R" (rs.map showEntry)
   | .report sc sd => showClients sc ++ "\t" ++ showDomains sd
+  | .ticked kc kd sc sd =>
+    showClientsAs "KC" kc ++ "\t" ++ showDomainsAs "KD" kd ++ "\t" ++ showClients sc ++ "\t" ++ showDomains sd
+  | .restarted mem file kc kd sc sd =>
+    counted "M" (mem.map showEntry) ++ "\t" ++ counted "F" (file.map showEntry) ++ "\t" ++
+      showClientsAs "KC" kc ++ "\t" ++ showDomainsAs "KD" kd ++ "\t" ++ showClients sc ++ "\t" ++ showDomains sd
+  | .rotated file => "ok\t" ++ counted "F" (file.map showEntry)
+  | .rotateSkipped => "skip"
+  | .rotateNoFile => "nofile"
 
 /-- The implementation's observation, parsed for the monitor. -/
 def implOutP (op : Op) : P Out :=
@@ -160,6 +186,28 @@ def implOutP (op : Op) : P Out :=
     lit "C"; let sc ← listOf (optP keyCountOf)
     lit "D"; let sd ← listOf (optP domCountOf)
     pure (.report sc sd)
+  | .tick => do
+    lit "KC"; let kc ← listOf (optP keyCountOf)
+    lit "KD"; let kd ← listOf (optP domCountOf)
+    lit "C"; let sc ← listOf (optP keyCountOf)
+    lit "D"; let sd ← listOf (optP domCountOf)
+    pure (.ticked kc kd sc sd)
+  | .restart => do
+    lit "M"; let mem ← listOf entryP
+    lit "F"; let file ← listOf entryP
+    lit "KC"; let kc ← listOf (optP keyCountOf)
+    lit "KD"; let kd ← listOf (optP domCountOf)
+    lit "C"; let sc ← listOf (optP keyCountOf)
+    lit "D"; let sd ← listOf (optP domCountOf)
+    pure (.restarted mem file kc kd sc sd)
+  | .rotate => do
+    let s ← next
+    if s == "skip" then pure .rotateSkipped
+    else if s == "nofile" then pure .rotateNoFile
+    else if s == "ok" then do
+      lit "F"; let file ← listOf entryP
+      pure (.rotated file)
+    else failure
   | _ => do
     let s ← next
     if s == "ok" then pure .ok else if s == "noclient" then pure .noClient else failure
@@ -175,7 +223,11 @@ def opP (name : String) : P Op :=
   match name with
   | "C08.query" => do
     let n ← pHex; let qt ← pNat; let a ← pHex; let cid ← pHex
-    pure (.query { name := n, qtype := qt, addr := a, cid := cid })
+    -- the zone field is optional (older corpus lines do not carry it)
+    let zone ← (fun fs => match fs with
+      | [] => some ([], [])
+      | f :: rest => (hexDecode f).map (fun z => (z, rest)) : P Bytes)
+    pure (.query { name := n, qtype := qt, addr := a, cid := cid, zone := zone })
   | "C08.flush" => pure .flush
   | "C08.qlogconf" => do
     let en ← pBool; let an ← pBool; let ign ← rules
@@ -191,6 +243,9 @@ def opP (name : String) : P Op :=
     pure (.rmClient n)
   | "C08.search" => pure .search
   | "C08.stats" => pure .stats
+  | "C08.tick" => pure .tick
+  | "C08.restart" => pure .restart
+  | "C08.rotate" => pure .rotate
   | _ => failure
 
 def ignClass (nameIgn clientIgn : Bool) : String :=
@@ -202,8 +257,8 @@ def classOf (c : Conf) (op : Op) : String :=
   | .query q =>
     let real := canon q.addr
     let l := if !c.qlogOn then "off" else if q.qtype == typeANY && c.refuseAny then "any-refused"
-             else ignClass (nameIgnoredLog c q.name) (fromIgnoredLog c q.cid real)
-    let s := if !c.statsOn then "off" else ignClass (nameIgnoredStat c q.name) (fromIgnoredStat c q.cid real)
+             else ignClass (nameIgnoredLog c q.name) (fromIgnoredLog c q.cid real q.zone)
+    let s := if !c.statsOn then "off" else ignClass (nameIgnoredStat c q.name) (fromIgnoredStat c q.cid real q.zone)
     "query/log=" ++ l ++ "/stat=" ++ s ++ (if c.anon then "/anon" else "")
   | .flush => "flush"
   | .qlogConf .. => "qlogconf"
@@ -212,10 +267,14 @@ def classOf (c : Conf) (op : Op) : String :=
   | .rmClient .. => "rmclient"
   | .search => "search"
   | .stats => "stats"
+  | .tick => "tick"
+  | .restart => "restart"
+  | .rotate => "rotate"
 
 def confOfReset (a : ResetArgs) : Conf :=
   { anon := a.anon, refuseAny := a.refuseAny, qlogOn := a.qlogOn, statsOn := a.statsOn,
-    ignQ := a.ignQ, ignS := a.ignS, clients := a.clients.map ClientObj.toPersistent, leases := a.leases }
+    ignQ := a.ignQ, ignS := a.ignS, clients := a.clients.map ClientObj.toPersistent, leases := a.leases,
+    fixZone := a.fixZone }
 
 /-- The configuration after an operation the implementation reported as done. -/
 def confAfter (c : Conf) (op : Op) (implOut : Out) : Conf :=
